@@ -212,10 +212,10 @@ def run(rep, program: Program, tier: str) -> None:
         "derivative table (trusted, DESIGN.md section 7): neg_log_dens->grad_neg_log_dens; c*x@x->2c*x; c*p@M^-1@p -> d/dp 2c*M^-1@p, d/dq c*vjp(M.grad_quadratic_form_inv(p)); c*M(q).log_abs_det -> c*vjp(M.grad_log_abs_det); c*gram.log_abs_det -> 2c*mhp(gram^-1 @ jacob @ metric^-1)",
         "user functions and matrix primitives are correct (C10/C11)",
     ]
-    rule_r1(rep, program)
-    rule_r2(rep, program)
-    rule_r3(rep, program)
-    c18.rule_r3(rep, program, prop=PROP, rule="R4")
-    rule_r5(rep, program)
+    rep.isolate(rule_r1, rep, program)
+    rep.isolate(rule_r2, rep, program)
+    rep.isolate(rule_r3, rep, program)
+    rep.isolate(c18.rule_r3, rep, program, prop=PROP, rule="R4")
+    rep.isolate(rule_r5, rep, program)
     # a derivative that updates a cached array in place is wrong from its second evaluation on (shared with C09-R9)
-    c09.rule_r9(rep, program, prop=PROP, rule="R6")
+    rep.isolate(c09.rule_r9, rep, program, prop=PROP, rule="R6")
